@@ -68,3 +68,14 @@ Proof. exact prog_policed. Qed.
 Check C19_program_policed :
   forall cfg : pycfg, pc_policer cfg = true -> forall (p : list cmd) (its : list iter_st) (script : list tok) (evs : list ev) (outs : list pyout), well_policed evs -> well_policed (fst (fst (run_prog cfg p its script evs outs))).
 Print Assumptions C19_program_policed.
+
+(* On the wire: request i leaves at some moment [wi] between its release and the moment the next request is asked for (the
+   session consults the policer once per request, before it sends: C19_session_policed), so the datagrams of requests i < j
+   are more than (j - i - 2) intervals apart - the long-run rate on the wire never exceeds rps.  Proofs/PolicerWire.v *)
+From GS Require Import Proofs.PolicerWire.
+Theorem C19_wire_window :
+  forall (q : Z) (st0 : pstate) (t0 : Z) (gaps : list Z), init false q = Some st0 -> 0 <= q -> forall (i j : nat) (ri rj gi wi wj : Z), (i < j)%nat -> nth_error (history st0 t0 gaps) i = Some ri -> nth_error (history st0 t0 gaps) j = Some rj -> nth_error gaps i = Some gi -> ri <= wi <= ri + Z.abs gi -> rj <= wj -> wj - wi > (Z.of_nat j - Z.of_nat i - 2) * q.
+Proof. exact wire_window. Qed.
+Check C19_wire_window :
+  forall (q : Z) (st0 : pstate) (t0 : Z) (gaps : list Z), init false q = Some st0 -> 0 <= q -> forall (i j : nat) (ri rj gi wi wj : Z), (i < j)%nat -> nth_error (history st0 t0 gaps) i = Some ri -> nth_error (history st0 t0 gaps) j = Some rj -> nth_error gaps i = Some gi -> ri <= wi <= ri + Z.abs gi -> rj <= wj -> wj - wi > (Z.of_nat j - Z.of_nat i - 2) * q.
+Print Assumptions C19_wire_window.
